@@ -78,7 +78,7 @@ def trace_row(sc, evs):
     return {"id": sc["id"], "cfg": sc["cfg"],
             "evs": [{"op": e["op"], "side": e["side"] or "-", "ret": e["ret"] or "-", "kind": e["kind"], "level": e["level"],
                      "mt": e["mt"], "hrr": e["hrr"], "sid": e["sid"], "junk": e["junk"], "u": e["u"], "rem": e["rem"],
-                     "k": e["k"], "complete": e["complete"], "builderr": e["builderr"]} for e in evs]}
+                     "k": e["k"], "ml": e["ml"], "complete": e["complete"], "builderr": e["builderr"]} for e in evs]}
 
 
 def validate(ctx, rows, cfg="UQuic_Trace", shards=1, verbose=False, tagname="t"):
@@ -89,7 +89,7 @@ def validate(ctx, rows, cfg="UQuic_Trace", shards=1, verbose=False, tagname="t")
     per = (len(rows) + shards - 1) // shards
 
     def one(k):
-        part = rows[k * per:(k + 1) * per]
+        part = rows[k::shards]      # round robin: the long byte-by-byte traces spread over the shards
         if not part:
             return None
         mod = "UQuic_Trace_%s%d" % (tagname, k)
@@ -132,6 +132,8 @@ def sig_of(sc, evs, at):
     inj = sc["cfg"]["build"]
     if sc["cfg"]["build"] == "ok":
         inj = "ok" + ("+hrr" if sc["cfg"]["hrr"] else "") + ("+srvRefuse" if sc["cfg"]["srvRefuse"] else "") + ("+cliRefuse" if sc["cfg"]["cliRefuse"] else "")
+    if sc["cfg"].get("reuse"):
+        inj += "+reusedbuf"          # HandleData was fed from one receive buffer that the caller overwrites after every call
     return "%s:%s" % (what, inj), i
 
 
@@ -217,10 +219,24 @@ def _run(ctx, q, seed, pool):
         rest = [o for o in eager if o["plan"]["kind"] != "none"]
         random.Random(seed).shuffle(rest)
         eager = keep + rest[:600 - len(keep)]
+    # Delivery dimension (not a model variable: every variant must behave like whole delivery, HandleData keeps a copy):
+    # each Deliver of a schedule is carried out as HandleData calls of at most `chunk` bytes, from fresh slices or from ONE
+    # receive buffer per side that the caller overwrites right after every call. Every schedule gets a VERIF_SEED-chosen
+    # variant; the uninjected eager schedules get the full {1, 7, 64, 256, whole} x {fresh, reused} matrix.
+    rng = random.Random(seed * 7919 + 23)
+    weighted = [0] * 8 + [256] * 4 + [64] * 4 + [7] * 3 + ([1] if not q else [])
     scs = []
     for fam, lst in (("stuck", stuck), ("eager", eager), ("sim", sim)):
         for o in lst:
-            scs.append({"id": len(scs) + 1, "family": fam, "cfg": o["cfg"], "plan": o.get("plan"), "ops": [parse_op(c) for c in o["ops"]]})
+            cfg = dict(o["cfg"], chunk=rng.choice(weighted), reuse=rng.random() < 0.5)
+            scs.append({"id": len(scs) + 1, "family": fam, "cfg": cfg, "plan": o.get("plan"), "ops": [parse_op(c) for c in o["ops"]]})
+    plain = [o for o in eager if o["plan"]["kind"] == "none" and o["cfg"]["build"] == "ok" and not o["cfg"]["srvRefuse"] and not o["cfg"]["cliRefuse"]]
+    cutsim = [o for o in sim if o["plan"]["kind"] == "none" and any(parse_op(c)["k"] for c in o["ops"])][:(2 if q else 10)]
+    for o in plain + cutsim:
+        for chunk in (1, 7, 64, 256, 0):
+            for reuse in (False, True):
+                scs.append({"id": len(scs) + 1, "family": "delivery", "cfg": dict(o["cfg"], chunk=chunk, reuse=reuse), "plan": o.get("plan"),
+                            "ops": [parse_op(c) for c in o["ops"]]})
     by_id = {s["id"]: s for s in scs}
 
     # ------------------------------------------------------------------ 3. replay on the real code (-race), record
@@ -294,10 +310,10 @@ def _run(ctx, q, seed, pool):
     # ------------------------------------------------------------------ 6. binding canaries
     def good_complete(s):
         es = runs[s["id"]]
-        return (s["id"] in acc and s["cfg"]["build"] == "ok" and not s["cfg"]["hrr"] and
+        return (s["id"] in acc and s["cfg"]["build"] == "ok" and not s["cfg"]["hrr"] and s["cfg"]["chunk"] == 0 and
                 all(e["complete"] for e in es if e["op"] == "End") and sum(1 for e in es if e["op"] == "End") == 2 and
                 not any(e["op"] == "Cancel" for e in es))
-    base = next((s for s in scs if s["family"] == "eager" and good_complete(s)), None)
+    base = next((s for s in scs if s["family"] in ("eager", "delivery") and good_complete(s)), None)
     if base is None and not ctx.findings:
         raise vlib.Machinery("vacuity: no accepted, completed, uninjected run to build the canaries from")
     if base is None:       # reproduced rejections are the result of this run; the canaries need an accepted run
@@ -365,6 +381,14 @@ def _run(ctx, q, seed, pool):
         "start_refused_minversion": has(lambda s, es: s["cfg"]["build"] == "minver12" and any(e["op"] == "Start" and e["side"] == "c" and e["ret"] == "err" for e in es)),
         "handledata_after_failure": has(lambda s, es: any(e["op"] == "Deliver" and e["ret"] == "err" for e in es[(next((k for k, e in enumerate(es) if e["ret"] == "err"), len(es)) + 1):])),
     }
+    done2 = lambda es: sum(1 for e in es if e["op"] == "End" and e["complete"]) == 2
+    for chunk in (1, 7, 64, 256, 0):
+        for reuse in (False, True):
+            seen["completed_chunk_%s_%s" % (chunk or "whole", "reusedbuf" if reuse else "fresh")] = has(
+                lambda s, es: s["cfg"]["chunk"] == chunk and s["cfg"]["reuse"] == reuse and done2(es))
+    # a handshake message reached the client in pieces out of the one overwritten buffer, and the handshake completed
+    seen["message_split_across_calls_from_reused_buffer"] = has(
+        lambda s, es: s["cfg"]["reuse"] and done2(es) and any(e["op"] == "Deliver" and e["side"] == "c" and e["ret"] == "ok" and 0 < e["u"] < 20 for e in es))
     empty = [k for k, v in seen.items() if v == 0 and k != "handledata_after_failure"]
     if empty and not ctx.findings:
         raise vlib.Machinery("vacuity: no accepted real run exercised %s" % empty)
@@ -382,8 +406,11 @@ def _run(ctx, q, seed, pool):
         "evaluations": len(scs), "distinct_nontrivial": len({json.dumps([s["cfg"], s["ops"]], sort_keys=True) for s in scs}),
         "rule": "evaluations = pump schedules chosen by TLC and replayed on the real UQUICConn+QUICServer under -race, each judged by TLC "
                 "(UQuic_Trace, FixEarlyReturn = TRUE); distinct = distinct (configuration, schedule) pairs. Families: stuck = parked-caller "
-                "states of the as-coded model, eager = exhaustive cfg x {cancel, close c, close s at every pump step} x cut, sim = random free interleavings",
-        "families": {"stuck": len(stuck), "eager": len(eager), "eager_emitted_by_tlc": eager_emitted, "sim": len(sim)},
+                "states of the as-coded model, eager = exhaustive cfg x {cancel, close c, close s at every pump step} x cut, sim = random free interleavings, "
+                "delivery = uninjected schedules x HandleData chunk size {1, 7, 64, 256, whole} x {fresh slice, one reused overwritten buffer} "
+                "(every other schedule gets one VERIF_SEED-chosen delivery variant)",
+        "families": {"stuck": len(stuck), "eager": len(eager), "eager_emitted_by_tlc": eager_emitted, "sim": len(sim),
+                     "delivery": sum(1 for s in scs if s["family"] == "delivery")},
         "events_logged": nevents, "accepted": len(acc), "rejected_and_reproduced": len(repro_info),
         "rejected_signatures": sorted(set(repro_info.values())),
         "unbuildable_inputs": nb_seen, "branches_seen_in_accepted_runs": seen,
@@ -397,5 +424,6 @@ def _run(ctx, q, seed, pool):
         "UQuic's instruction tables state the order of events of the TLS 1.3 client/server handshake functions",
         "the pump is single threaded (methods of UQUICConn are documented as not safe for concurrent use)",
         "HandleData at a wrong encryption level, session tickets/0-RTT and TransportParametersRequired are not modelled",
+        "equality of the secrets with whole-flight delivery is judged through the event sequence and the completed handshake (Finished verifies the transcript), the secret bytes themselves are per-connection random",
         "a call that does not return within %d ms (>= 50x the measured typical call) twice is a hang" % TIMEOUT_MS,
     ]
